@@ -34,17 +34,12 @@ package c02
 import (
 	"bytes"
 	"fmt"
-	"go/ast"
-	"go/parser"
-	"go/token"
-	"path/filepath"
 	"strconv"
 	"strings"
 	"sync"
 
 	"mellium.im/xmpp"
 
-	"verifharness/astfacts"
 	"verifharness/common"
 )
 
@@ -573,31 +568,37 @@ func mkSess(domain, remote int, kind byte) sess {
 	return sess{domain: domain, remote: remote, kind: kind}
 }
 
+// sniScenario is the session of a server-name history: how far it gets is s.kind.
+func sniScenario(s sess, explicit bool, i int) scenario {
+	sc := scenario{domain: s.domain, remote: s.remote, explicit: explicit}
+	if s.s2s {
+		sc.state0 = uint8(xmpp.S2S)
+	}
+	switch s.kind {
+	case 'p':
+		sc.clear = [][]unit{{hdr(true), list(it(0, true))}, {u('P')}}
+		sc.prot = []pu{{u: hdr(true)}, {u: list()}}
+	case 'x':
+		sc.clear = [][]unit{{hdr(true), list()}, {u('P')}}
+		sc.prot = []pu{{u: hdr(true)}, {u: list()}}
+	case 'f':
+		sc.clear = [][]unit{{hdr(true), list(it(0, true))}, {u('F')}}
+	default:
+		sc.clear = [][]unit{{hdr(false)}}
+	}
+	if i%2 == 1 {
+		sc.tee = 3
+	}
+	return sc
+}
+
 func (c *ctx) sni(explicit bool, ss []sess, class string) {
 	r := c.r
 	base := xmpp.StartTLS(c.tlsConfig(explicit))
 	var names, fields []string
 	bad, badRemote := -1, false
 	for i, s := range ss {
-		sc := scenario{domain: s.domain, remote: s.remote, explicit: explicit}
-		if s.s2s {
-			sc.state0 = uint8(xmpp.S2S)
-		}
-		switch s.kind {
-		case 'p':
-			sc.clear = [][]unit{{hdr(true), list(it(0, true))}, {u('P')}}
-			sc.prot = []pu{{u: hdr(true)}, {u: list()}}
-		case 'x':
-			sc.clear = [][]unit{{hdr(true), list()}, {u('P')}}
-			sc.prot = []pu{{u: hdr(true)}, {u: list()}}
-		case 'f':
-			sc.clear = [][]unit{{hdr(true), list(it(0, true))}, {u('F')}}
-		default:
-			sc.clear = [][]unit{{hdr(false)}}
-		}
-		if i%2 == 1 {
-			sc.tee = 3
-		}
+		sc := sniScenario(s, explicit, i)
 		res := c.exec(sc, &base)
 		n := "none"
 		if len(res.sni) > 0 {
@@ -1220,34 +1221,13 @@ func Run(r *common.Run) error {
 	return nil
 }
 
-// setsSecure: does the block contain `<x>.state |= Secure`?
-func setsSecure(b *ast.BlockStmt) bool {
-	found := false
-	ast.Inspect(b, func(n ast.Node) bool {
-		as, ok := n.(*ast.AssignStmt)
-		if !ok || as.Tok != token.OR_ASSIGN || len(as.Lhs) != 1 || len(as.Rhs) != 1 {
-			return true
-		}
-		l, ok1 := as.Lhs[0].(*ast.SelectorExpr)
-		r, ok2 := as.Rhs[0].(*ast.Ident)
-		if ok1 && ok2 && l.Sel.Name == "state" && r.Name == "Secure" {
-			found = true
-		}
-		return true
-	})
-	return found
-}
-
-// Facts regenerates lean/XmppModel/Generated/C02.lean: the bit values of the
-// session-state constants and the masks of the real xmpp.StartTLS feature
-// (evaluated on the linked library), and two shapes read from the source with
-// go/ast: whether the Negotiate closure of StartTLS assigns to the captured
-// configuration parameter, and whether the negotiator derives the
-// first-features-list flag from the `data` argument.
+// Facts regenerates lean/XmppModel/Generated/C02.lean: the bit values of the session-state
+// constants and the masks of the real xmpp.StartTLS / SASL / bind features (evaluated on the
+// linked library), the shared mutable state of the values returned by NewNegotiator and StartTLS
+// (read from the source, astwalk.go) and the probe tables (probes.go).
 func Facts(repo string) (string, error) {
 	var sb strings.Builder
-	sb.WriteString("-- GENERATED by `harness facts C02`; do not edit.\n")
-	sb.WriteString("namespace XmppModel.Generated.C02\n\n")
+	sb.WriteString("import XmppModel.Model.StartTLSProbe\n/-! GENERATED by `harness facts C02`; do not edit. -/\nnamespace XmppModel.Generated.C02\nopen XmppModel XmppModel.StartTLS\n\n")
 	st := xmpp.StartTLS(nil)
 	fmt.Fprintf(&sb, "def secureBit : Option Nat := some %d\n", uint8(xmpp.Secure))
 	fmt.Fprintf(&sb, "def authnBit : Option Nat := some %d\n", uint8(xmpp.Authn))
@@ -1266,103 +1246,31 @@ func Facts(repo string) (string, error) {
 	fmt.Fprintf(&sb, "def bindNecessary : Option Nat := some %d\n", uint8(bf.Necessary))
 	fmt.Fprintf(&sb, "def bindProhibited : Option Nat := some %d\n", uint8(bf.Prohibited))
 
-	fset := token.NewFileSet()
-	assigned := "none"
-	if f, err := parser.ParseFile(fset, filepath.Join(repo, "starttls.go"), nil, 0); err == nil {
-		for _, d := range f.Decls {
-			fd, ok := d.(*ast.FuncDecl)
-			if !ok || fd.Name.Name != "StartTLS" || fd.Type.Params == nil || len(fd.Type.Params.List) != 1 || len(fd.Type.Params.List[0].Names) != 1 {
-				continue
+	// Shared mutable state of the two values that many sessions are negotiated with (the only
+	// facts read from the source text; see astwalk.go).
+	for _, x := range []struct{ def, root, doc string }{
+		{"negotiatorSharedWrites", "NewNegotiator", "state shared by every session negotiated with one value returned by `NewNegotiator` (closure variables written by the closure, package-level variables, fields of an object built with the value) that the code reached from it writes"},
+		{"startTLSSharedWrites", "StartTLS", "the same for a feature value returned by `StartTLS` (in particular: the captured configuration)"},
+	} {
+		shared := "none"
+		if names, found, err := sharedState(repo, x.root); err == nil && found {
+			var q []string
+			for _, n := range names {
+				q = append(q, strconv.Quote(n))
 			}
-			param := fd.Type.Params.List[0].Names[0].Name
-			found := false
-			ast.Inspect(fd.Body, func(n ast.Node) bool {
-				switch n := n.(type) {
-				case *ast.AssignStmt:
-					if n.Tok == token.ASSIGN {
-						for _, l := range n.Lhs {
-							if id, ok := l.(*ast.Ident); ok && id.Name == param {
-								found = true
-							}
-						}
-					}
-				case *ast.IncDecStmt:
-					if id, ok := n.X.(*ast.Ident); ok && id.Name == param {
-						found = true
-					}
-				}
-				return true
-			})
-			assigned = fmt.Sprintf("some %v", found)
+			shared = "some [" + strings.Join(q, ", ") + "]"
 		}
+		fmt.Fprintf(&sb, "/-- %s -/\ndef %s : Option (List String) := %s\n", x.doc, x.def, shared)
 	}
-	fmt.Fprintf(&sb, "/-- does the body of `StartTLS` (starttls.go) assign to its configuration parameter? -/\ndef startTLSAssignsCapturedConfig : Option Bool := %s\n", assigned)
+	sb.WriteString("\n")
 
-	// session.go negotiateSession: the if statement that ORs Secure into the state before any
-	// negotiation — is its condition a type assertion to *tls.Conn?
-	asserts := "none"
-	if f, err := parser.ParseFile(fset, filepath.Join(repo, "session.go"), nil, 0); err == nil {
-		for _, d := range f.Decls {
-			fd, ok := d.(*ast.FuncDecl)
-			if !ok || fd.Name.Name != "negotiateSession" || fd.Body == nil {
-				continue
-			}
-			for _, st := range fd.Body.List { // top level of the function only: before the loop
-				is, ok := st.(*ast.IfStmt)
-				if !ok || !setsSecure(is.Body) {
-					continue
-				}
-				asserts = "some false"
-				if as, ok := is.Init.(*ast.AssignStmt); ok && len(as.Rhs) == 1 {
-					if ta, ok := as.Rhs[0].(*ast.TypeAssertExpr); ok {
-						if star, ok := ta.Type.(*ast.StarExpr); ok {
-							if sel, ok := star.X.(*ast.SelectorExpr); ok {
-								if pkg, ok := sel.X.(*ast.Ident); ok && pkg.Name == "tls" && sel.Sel.Name == "Conn" {
-									asserts = "some true"
-								}
-							}
-						}
-					}
-				}
-			}
-		}
+	// Everything else about the behaviour of the anchored functions is PROBED: the real functions
+	// are run over complete finite domains and the tables are emitted (probes.go).
+	pr, err := probes()
+	if err != nil {
+		return "", err
 	}
-	fmt.Fprintf(&sb, "/-- session.go `negotiateSession`: the statement that sets `Secure` before the negotiation\nstarts is guarded by a type assertion to `*tls.Conn` -/\ndef initialSecureAssertsTLSConn : Option Bool := %s\n", asserts)
-
-	// negotiator.go: variables of negotiator() written inside the closure it returns (shared by
-	// every session negotiated with one NewNegotiator value)
-	shared := "none"
-	if names, found, err := astfacts.SharedWrites(filepath.Join(repo, "negotiator.go"), "negotiator"); err == nil && found {
-		var q []string
-		for _, n := range names {
-			q = append(q, strconv.Quote(n))
-		}
-		shared = "some [" + strings.Join(q, ", ") + "]"
-	}
-	fmt.Fprintf(&sb, "/-- negotiator.go: the variables of `negotiator` that the closure it returns writes -/\ndef negotiatorSharedWrites : Option (List String) := %s\n", shared)
-
-	usesData := "none"
-	if f, err := parser.ParseFile(fset, filepath.Join(repo, "negotiator.go"), nil, 0); err == nil {
-		ast.Inspect(f, func(n ast.Node) bool {
-			call, ok := n.(*ast.CallExpr)
-			if !ok {
-				return true
-			}
-			if id, ok := call.Fun.(*ast.Ident); !ok || id.Name != "negotiateFeatures" || len(call.Args) < 3 {
-				return true
-			}
-			mentions := false
-			ast.Inspect(call.Args[2], func(m ast.Node) bool {
-				if id, ok := m.(*ast.Ident); ok && id.Name == "data" {
-					mentions = true
-				}
-				return true
-			})
-			usesData = fmt.Sprintf("some %v", mentions)
-			return true
-		})
-	}
-	fmt.Fprintf(&sb, "/-- does the `first` argument of the `negotiateFeatures` call in negotiator.go mention the\nopaque `data` argument (which is non-nil after the tee step)? -/\ndef firstFlagFromData : Option Bool := %s\n", usesData)
+	sb.WriteString(pr)
 	sb.WriteString("\nend XmppModel.Generated.C02\n")
 	return sb.String(), nil
 }
